@@ -736,6 +736,15 @@ func scopeRules(c *Ctx, r *Report, resolveRef, resolve, newFieldSet *ssa.Functio
 					}
 				}
 			}
+			// the same for what the resolved value is turned into: a sub-configuration taken from it (toConfig) that is
+			// returned is a live node whose reference is no longer registered once the scope is closed — reading on below it
+			// can come back to the same reference unseen
+			if call, isCall := s.(*ssa.Call); ok && isCall && len(si.opens) > 0 {
+				if at := liveNodeReturned(c, call); at != "" {
+					ok = false
+					why = "a sub-configuration taken from the resolved value inside the guard scope opened here is returned (" + at + "): the scope is closed by then, so a reference that leads back to an enclosing object is followed again and again (${a:x} below a) — the evaluation recurses without bound"
+				}
+			}
 			r.Check(ok, "R08d", name, "resolve inside scope", c.Pos(s.Pos()), "resolve and the consumption of its value are inside one guard scope", why)
 		}
 	}
@@ -904,6 +913,38 @@ func successfulReturn(ret *ssa.Return) bool {
 }
 
 // evalUsesOf: evaluation-method calls whose receiver derives from the call's first result.
+// liveNodeReturned: a *Config (or a value wrapping one) obtained from result #0 of the call through toConfig reaches
+// a return of the calling function; answers with the position of that return.
+func liveNodeReturned(c *Ctx, call *ssa.Call) string {
+	fn := call.Parent()
+	fromResolved := func(v ssa.Value) bool {
+		for _, s := range append([]ssa.Value{v}, Sources(v)...) {
+			if e, ok := s.(*ssa.Extract); ok && e.Tuple == ssa.Value(call) && e.Index == 0 {
+				return true
+			}
+		}
+		return false
+	}
+	for _, ret := range Returns(fn) {
+		for i := range ret.Results {
+			for _, s := range append([]ssa.Value{RetVal(ret, i)}, Sources(RetVal(ret, i))...) {
+				ex, ok := s.(*ssa.Extract)
+				if !ok || ex.Index != 0 {
+					continue
+				}
+				inv, ok := ex.Tuple.(*ssa.Call)
+				if !ok || !inv.Call.IsInvoke() || inv.Call.Method.Name() != "toConfig" {
+					continue
+				}
+				if fromResolved(inv.Call.Value) {
+					return c.Pos(ret.Pos())
+				}
+			}
+		}
+	}
+	return ""
+}
+
 // resolvedValueReturned: result #0 of the call reaches a return of the calling function.
 func resolvedValueReturned(call *ssa.Call) bool {
 	for _, ret := range Returns(call.Parent()) {
